@@ -103,6 +103,16 @@ ClosureCases ==
                    SPrint(Bin("+", Call(Id("t3"), <<>>), Num(1))), SPrint(Call(Id("len"), <<Arr(<<Call(Id("e"), <<>>)>>)>>)), SPrint(Un("!", Call(Id("z"), <<>>))), SPrint(Log("or", Call(Id("nl"), <<>>), Num(5))),
                    SVar("h", Obj(<<"a">>, <<Num(1)>>)), SExpr(PAsg(Id("h"), "s", Call(Id("t3"), <<>>))), SPrint(Id("h")), SPrint(Bin("==", Prop(Id("h"), "s"), Call(Id("t3"), <<>>))) >>,
           c |-> "return:literal-values", key |-> "return:literal-values"],
+         \* a closure declared one block deeper than the variable it captures, used after both blocks have ended
+         [t |-> << SVar("fs", Arr(<<Num(0), Num(0), Num(0)>>)),
+                   SFor(SVar("i", Num(0)), Bin("<", Id("i"), Num(3)), Asg("i", Bin("+", Id("i"), Num(1))),
+                        SBlock(<< SVar("k", Bin("*", Id("i"), Num(10))),
+                                  SIf(Lit(VBool(TRUE)), SBlock(<< SVar("m", Bin("+", Id("k"), Num(1))),
+                                                                 SBlock(<< SFun("g", <<>>, <<SExpr(Asg("k", Bin("+", Id("k"), Num(1)))), SIf(Bin(">", Id("k"), Num(0)), SBlock(<< SVar("loc", Id("m")), SReturn(Bin("+", Id("k"), Id("loc"))) >>), None), SReturn(Bin("+", Id("k"), Id("m")))>>), SExpr(IAsg(Id("fs"), Id("i"), Id("g"))) >>) >>), None) >>)),
+                   SBlock(<< SVar("other", Num(777)), SBlock(<< SVar("other2", Num(888)), SPrint(Id("other2")) >>) >>),
+                   SPrint(Call(Idx(Id("fs"), Num(0)), <<>>)), SPrint(Call(Idx(Id("fs"), Num(2)), <<>>)), SPrint(Call(Idx(Id("fs"), Num(0)), <<>>)), SPrint(Call(Idx(Id("fs"), Num(1)), <<>>)),
+                   SFun("viaIf", <<>>, << SIf(Num(1), SBlock(<< SPrint(Call(Idx(Id("fs"), Num(2)), <<>>)) >>), None) >>), SExpr(Call(Id("viaIf"), <<>>)) >>,
+          c |-> "closure:declared-deeper-than-captured", key |-> "closure:declared-deeper-than-captured"],
          \* a bare return after valued returns have happened; thousands of calls that end through return
          [t |-> << SFun("val", <<"x">>, <<SReturn(Bin("+", Id("x"), Num(1)))>>),
                    SFun("find", <<"a", "x">>, << SFor(SVar("i", Num(0)), Bin("<", Id("i"), Call(Id("len"), <<Id("a")>>)), Asg("i", Bin("+", Id("i"), Num(1))),
